@@ -879,6 +879,18 @@ pub fn pw_rng_fail_closed<V: PwWrapVersion, const AT: usize>(header: &'static st
     core::mem::forget(r);
 }
 
+/// the same with caller-supplied cost parameters (see the v2/v4 harness crates: byte-palindromic
+/// 32-bit fields, which the engine reads correctly in either byte order)
+pub fn pw_rng_fail_closed_with<V: PwWrapVersion, const AT: usize>(header: &'static str, arm: fn(usize), draws: fn() -> usize, params: V::Params) {
+    let mut v = Vec::with_capacity(4);
+    v.extend_from_slice(&[1, 2, 3, 4]);
+    arm(draws() + AT);
+    let r = V::pw_wrap_key(header, b"pw", &params, v);
+    assert!(r.is_err(), "password wrap ignored an RNG failure");
+    kani::cover!(r.is_err());
+    core::mem::forget(r);
+}
+
 // ================================================================================================
 // PASERK: PKE
 // ================================================================================================
